@@ -20,7 +20,8 @@ import shutil
 import vlib
 from vlib import Inconclusive, log
 
-FILES = ["z/BufferOps.tla", "z/Buffer.tla", "z/MC_Buffer.cfg", "z/BufferSort.tla", "z/MC_BufferSort.cfg",
+FILES = ["z/BufferOps.tla", "z/Buffer.tla", "z/MC_Buffer.cfg", "z/MC_Buffer_thorough.cfg", "z/MC_Buffer_growcap.cfg",
+         "z/BufferSort.tla", "z/MC_BufferSort.cfg", "z/MC_BufferSort_thorough.cfg",
          "z/TraceBuffer.tla", "z/TraceBuffer.cfg"]
 
 
@@ -41,13 +42,14 @@ def run(ctx, pid):
         return judge(ctx, pid, replay, None, None, None, [], [])
 
     # 1. exhaustive design checks (run in the background while the behaviours are generated and replayed)
-    if ctx.quick():
-        mc_cfg, sort_cfg = "MC_Buffer.cfg", "MC_BufferSort.cfg"
-    else:
-        mc_cfg = _cfg("MC_Buffer.cfg", [("MaxOps = 3", "MaxOps = 5")])
-        sort_cfg = _cfg("MC_BufferSort.cfg", [("MaxLen = 7", "MaxLen = 11")])
+    mc_cfg = ctx.pick("MC_Buffer.cfg", "MC_Buffer_thorough.cfg")
+    sort_cfg = ctx.pick("MC_BufferSort.cfg", "MC_BufferSort_thorough.cfg")
     d_mc, d_mcs = ctx.sub("mc"), ctx.sub("mcsort")
-    pool = concurrent.futures.ThreadPoolExecutor(max_workers=2)
+    pool = concurrent.futures.ThreadPoolExecutor(max_workers=3)
+    ctx.c11_growcap = None
+    if not ctx.quick():     # the branch "don't allocate more than 1GB at a time" of Grow, with the cap scaled down to 100
+        d_gc = ctx.sub("mcgrowcap")
+        ctx.c11_growcap = pool.submit(vlib.tlc, ctx, FILES, "Buffer", "MC_Buffer_growcap.cfg", workdir=d_gc, timeout=900, workers=2)
     f_mc = pool.submit(vlib.tlc, ctx, FILES, "Buffer", mc_cfg, workdir=d_mc, timeout=ctx.pick(400, 1500),
                        workers=max(2, vlib.NCPU - 4))
     f_mcs = pool.submit(vlib.tlc, ctx, FILES, "BufferSort", sort_cfg, workdir=d_mcs, timeout=ctx.pick(400, 900), workers=4)
@@ -57,8 +59,12 @@ def run(ctx, pid):
         pool.shutdown(wait=True)
 
 
-def _design_results(f_mc, f_mcs):
+def _design_results(ctx, f_mc, f_mcs):
     mc, mcs = f_mc.result(), f_mcs.result()
+    if ctx.c11_growcap is not None:
+        gc = ctx.c11_growcap.result()
+        if not gc.ok:
+            raise Inconclusive("design spec Buffer.tla (growth cap 100) did not pass TLC: %s" % (gc.violated or gc.error))
     if not mc.ok:
         raise Inconclusive("design spec Buffer.tla did not pass TLC: %s" % (mc.violated or mc.error))
     if not mcs.ok:
@@ -142,7 +148,7 @@ def _drive(ctx, pid, f_mc, f_mcs):
         summ = json.load(open(sp))
     elif not aborted:
         raise Inconclusive("buffer driver wrote no summary")
-    mc, mcs = _design_results(f_mc, f_mcs)
+    mc, mcs = _design_results(ctx, f_mc, f_mcs)
     return judge(ctx, pid, trace, mc, mcs, summ, scen, shapes)
 
 
@@ -169,7 +175,7 @@ def split_trace(trace, parts):
 
 
 def validate(ctx, trace):
-    pieces, nlines, ntraces = split_trace(trace, 8)
+    pieces, nlines, ntraces = split_trace(trace, max(8, os.path.getsize(trace) // (6 << 20)))
     dirs = []
     for k, (first, lines) in enumerate(pieces):
         d = ctx.sub("validate%d" % k)
@@ -179,9 +185,9 @@ def validate(ctx, trace):
 
     def one(k):
         return vlib.tlc(ctx, FILES, "TraceBuffer", "TraceBuffer.cfg", workers=1, timeout=1500, workdir=dirs[k],
-                        heap="6g")
+                        heap="4g")
 
-    with concurrent.futures.ThreadPoolExecutor(max_workers=8) as ex:
+    with concurrent.futures.ThreadPoolExecutor(max_workers=ctx.pick(8, 6)) as ex:
         results = list(ex.map(one, range(len(pieces))))
     bad, drift = [], []
     for (first, lines), r in zip(pieces, results):
